@@ -425,9 +425,22 @@ func CheckMulGFlooredDiv(glvFile string, n *big.Int) ([]Obligation, error) {
 		}
 	}
 	var resLimbs []*Val
+	// the limbs arrive through a pointer to an array, as an array by value, or as four words
 	if set != nil && len(set.args) == 2 {
-		if p, ok := set.args[1].(*ptrVal); ok && p.arr != nil {
-			resLimbs = p.arr.elems
+		switch p := set.args[1].(type) {
+		case *ptrVal:
+			if p.arr != nil {
+				resLimbs = p.arr.elems
+			}
+		case *arrayVal:
+			resLimbs = p.elems
+		}
+	}
+	if set != nil && len(set.args) == 5 {
+		for _, a := range set.args[1:] {
+			if v, ok := a.(*Val); ok {
+				resLimbs = append(resLimbs, v)
+			}
 		}
 	}
 	// an operand may also arrive already converted, as a 4-limb array parameter; its range (< n, the FromMontgomery
